@@ -182,7 +182,7 @@ func (reader *Reader) GetPrepareType() (PrepareType, error) {
 
 // GetBytes returns the buffer's contents as a []byte.
 func (reader *Reader) GetBytes(n int) ([]byte, error) {
-	if len(reader.Msg) < n {
+	if n < 0 || len(reader.Msg) < n {
 		return nil, NewInsufficientData(len(reader.Msg))
 	}
 
